@@ -62,19 +62,35 @@ def run(tier: str) -> int:
             if not ok:
                 continue
             noisy = df.assign(verif_noise_a=np.arange(len(df)) * 1.5, zzz_unused_hh=7, noise_m=1.0)
+            shuffled = df.copy()
+            shuffled.index = rnd.sample(range(1000, 1000 + len(df)), len(df))      # labels not in row order
+            gaps = df.copy()
+            gaps.index = sorted(rnd.sample(range(0, 3 * len(df) + 3), len(df)))   # a filtered frame's index
             variants = [("extra unused columns", dict(df=noisy)), ("debug=True", dict(df=df, debug=True)),
-                        ("check_minimal_specification=warn", dict(df=noisy, check_minimal_specification="warn"))]
+                        ("check_minimal_specification=warn", dict(df=noisy, check_minimal_specification="warn")),
+                        ("debug=True, index labels not in row order", dict(df=shuffled, debug=True)),
+                        ("debug=True, index with gaps", dict(df=gaps, debug=True)),
+                        ("index labels not in row order", dict(df=shuffled)),
+                        ("dict of Series with gapped index, debug=True", dict(df=dict(gaps), debug=True))]
             for label, kw in variants:
                 d2 = kw.pop("df")
                 ok, res = r.attempt(f"simulate({label}) at {date}", popgen.simulate, d2, date, targets=T, **kw)
                 r.case({"date": date, "pop": k, "variant": label, "targets": sorted(T)})
                 if not ok:
                     continue
+                if len(res) != len(df):
+                    r.hit({"node": "result", "kind": "row-count", "option": label},
+                          f"{len(res)} result rows for {len(df)} input rows with {label} at {date}",
+                          {"date": date, "data": popgen.frame_to_json(df), "targets": T, "option": label})
+                    continue
+                if "debug" in label and "p_id" in res.columns and not np.array_equal(res["p_id"].to_numpy(), df["p_id"].to_numpy()):
+                    r.hit({"node": "result", "kind": "row-order", "option": label},
+                          f"with {label} the result rows are not in input order at {date}", {"date": date, "option": label})
                 for t in T:
                     if t not in res.columns or not np.array_equal(res[t].to_numpy(), base[t].to_numpy(), equal_nan=res[t].dtype.kind == "f"):
                         r.hit({"node": t, "kind": "depends-on-option", "option": label},
                               f"{t} at {date} changes with {label}", {"date": date, "data": popgen.frame_to_json(d2), "targets": T})
-                if label != "debug=True" and sorted(res.columns) != sorted(T):
+                if "debug" not in label and sorted(res.columns) != sorted(T):
                     r.hit({"node": "result", "kind": "result-columns-are-not-the-targets", "option": label},
                           f"with {label} the result has columns {sorted(set(res.columns) - set(T))[:5]} beyond the targets",
                           {"date": date, "targets": T})
